@@ -501,3 +501,6 @@ with leaves_m (parent : bytes) (m : members) : flatmap :=
   | MNil => []
   | MCons _ k _ _ v _ m' => leaves_v (join_key parent (decode k)) v ++ leaves_m parent m'
   end.
+
+(** the first dot-separated segment of the key is empty *)
+Definition starts_dot (k : bytes) : bool := match k with c :: _ => N.eqb c DOT | [] => false end.
